@@ -503,7 +503,7 @@ fn serve_early(log: Arc<Mutex<Vec<Seen>>>, reply: impl Fn(&str, u16) -> Vec<u8> 
 fn vp_native_redirect_hops_with_bodies() { crate::verif_native_watchdog::watched(vp_native_redirect_hops_with_bodies_body); }
 fn vp_native_redirect_hops_with_bodies_body() {
     let log = Arc::new(Mutex::new(Vec::new()));
-    // two servers: A/<status>/start -> B/<status>/next -(relative)-> B/<status>/rel -> A/<status>/end -> 200
+    // two servers: A/<status>/start -(//authority/path)-> B/<status>/next -(relative)-> B/<status>/rel -(absolute)-> A/<status>/end -> 200
     let ports: Arc<Mutex<(u16, u16)>> = Arc::new(Mutex::new((0, 0)));
     let mk = |ports: Arc<Mutex<(u16, u16)>>| move |line: &str, _port: u16| -> Vec<u8> {
         let (a, b) = *ports.lock().unwrap();
@@ -511,7 +511,7 @@ fn vp_native_redirect_hops_with_bodies_body() {
         let seg: Vec<&str> = path.split('/').collect();
         if seg.len() < 3 { return resp(404, None, "nf"); }
         let status: u16 = seg[1].parse().unwrap_or(404);
-        match seg[2] { "start" => resp(status, Some(&format!("http://127.0.0.1:{}/{}/next", b, status)), "go"), "next" => resp(status, Some("rel?via=next"), ""),   // a relative reference: belongs to this hop's origin (B), not to the first one
+        match seg[2] { "start" => resp(status, Some(&format!("//127.0.0.1:{}/{}/next", b, status)), "go"), /* a network-path reference: same scheme, another authority */ "next" => resp(status, Some("rel?via=next"), ""),   // a relative reference: belongs to this hop's origin (B), not to the first one
             "rel" => resp(status, Some(&format!("http://127.0.0.1:{}/{}/end", a, status)), ""), _ => resp(200, None, "done") }
     };
     let a = serve_early(log.clone(), mk(ports.clone()));
